@@ -34,12 +34,12 @@ theorem step_spec (u h : Nat) (hu : 1 ≤ u) (hh : 1 ≤ h) (st : St) (rev : Lis
   | false =>
     obtain ⟨e1, l1⟩ := h1 rfl
     simp only at e1
-    cases r <;> simp only [step, isSucc_eq_ok, Result.ok, Result.bad, handleSuccess, handleFailure, Inv] <;>
+    cases r <;> simp only [step, isSucc_eq_ok, Result.ok, Result.bad, handleSuccess, handleFailure, incHealthyChanged, decHealthyChanged, Inv] <;>
       simp <;> (try split) <;> simp_all [trail_cons, Result.ok, Result.bad] <;> omega
   | true =>
     obtain ⟨e2, l2⟩ := h2 rfl
     simp only at e2
-    cases r <;> simp only [step, isSucc_eq_ok, Result.ok, Result.bad, handleSuccess, handleFailure, Inv] <;>
+    cases r <;> simp only [step, isSucc_eq_ok, Result.ok, Result.bad, handleSuccess, handleFailure, incHealthyChanged, decHealthyChanged, Inv] <;>
       simp <;> (try split) <;> simp_all [trail_cons, Result.ok, Result.bad] <;> omega
 
 theorem run_eq_spec (u h : Nat) (hu : 1 ≤ u) (hh : 1 ≤ h) (st : St) (rev : List Result) (rs : List Result) (hinv : Inv u h st rev) :
